@@ -269,6 +269,8 @@ def gen_ss(r, labels=None, vt=None, fields=None, m=None, tiefree=False, dt=None)
         en = r.sample([F(k, 8) for k in range(-40, 41)], m)
     else:
         en = [F(r.randint(-4, 4), 2) for _ in range(m)]
+    if r.random() < .3:
+        en = [e * 16 for e in en]                   # large magnitudes: relative tolerances matter
     occ = [r.randint(1, 3) for _ in range(m)]
     if dt is not None:
         pass
@@ -353,11 +355,22 @@ def history(ctx, r, lines, expect, meta):
                 if r.random() < .5:
                     code = 'out = ss.lowest()'; rt, at = F(1e-5), F(1e-8)
                 else:
-                    rt, at = r.choice([F(0), F(1, 4), F(1, 8)]), r.choice([F(0), F(1, 2), F(1)])
+                    rt, at = r.choice([F(0), F(1, 4), F(1, 8), F(1, 2), F(1), F(3, 2), F(2)]), r.choice([F(0), F(1, 2), F(1), F(4)])     # large rtol: the band is scaled by |min|
                     code = f'out = ss.lowest(rtol={float(rt)!r}, atol={float(at)!r})'
                 line = f'lowest 0 0 {rat(rt)} {rat(at)}'; exp = ref.lowest(rt, at)
             elif op == 'filter':
-                if r.random() < .5 or not ref.rows:
+                if r.random() < .35:
+                    # a predicate returning numbers (truthy / falsy), not booleans: the mask must be coerced to bool
+                    kind = r.choice(['energy', 'occm1'] + (['col'] if ref.labels else []))
+                    if kind == 'energy':
+                        code = 'out = ss.filter(lambda d: d.energy)'; fsrc = 'energy'; val = lambda row: row[1]
+                    elif kind == 'occm1':
+                        code = 'out = ss.filter(lambda d: d.num_occurrences - 1)'; fsrc = 'occm1'; val = lambda row: row[2] - 1
+                    else:
+                        v = r.choice(ref.labels); j = ref.labels.index(v)
+                        code = f'out = ss.filter(lambda d: d.sample[{v!r}])'; fsrc = f'col:{j}'; val = lambda row, j=j: row[0][j]
+                    line = f'filternz 0 0 {fsrc}'; exp = ref.filter(lambda row: val(row) != 0); spec_line = True
+                elif r.random() < .5 or not ref.rows:
                     thr = F(r.randint(-8, 8), 4)
                     code = f'out = ss.filter(lambda d: d.energy <= {float(thr)!r})'
                     line = f'filterle 0 0 energy {rat(thr)}'; exp = ref.filter(lambda row: row[1] <= thr); spec_line = True
@@ -595,7 +608,7 @@ def observe(ctx, r, op, ss, ref, hist_src, lines, expect, meta):
         if e_line:
             lines.append('first 0'); expect.append(e_line); meta.append(('first', [hist_src], None))
     elif op == 'data':
-        by = r.choice(['energy', None, 'num_occurrences'])
+        by = r.choice(['energy', None, 'num_occurrences'] + (['ex'] if 'ex' in ref.fields else []))
         rev = r.random() < .4
         ctx.tick('data'); ctx.case(('data', by, rev, ss_text(ss)), nontrivial=bool(ref.rows))
         got = list(ss.data(sorted_by=by, reverse=rev, index=True, name=None))
@@ -607,15 +620,15 @@ def observe(ctx, r, op, ss, ref, hist_src, lines, expect, meta):
         names = [f for f in ss.record.dtype.names if f not in REQ]
         exp = [(dict(zip(ref.labels, row[0])), row[1], row[2]) + tuple(row[3][ref.fields.index(f)] for f in names) + (i,) for i, row in rows]
         gotc = [({k: F(float(v)) for k, v in d[0].items()}, F(float(d[1])), int(d[2])) + tuple([F(float(x)) for x in np.atleast_1d(v)] for v in d[3:-1]) + (int(d[-1]),) for d in got]
-        bym = {None: 'none', 'energy': 'energy', 'num_occurrences': 'occ'}[by]
+        bym = {None: 'none', 'energy': 'energy', 'num_occurrences': 'occ'}.get(by) or 'x' + str(ref.fields.index(by))
         lines.append(f'dataorder 0 {bym} {int(rev)}'); expect.append('ok ' + (','.join(str(d[-1]) for d in gotc) or '-')); meta.append(('data', [hist_src], None))
         if gotc != exp:
             bad = f'data(sorted_by={by!r}, reverse={rev}, index=True) yields {gotc!r}, the definition gives {exp!r}'
             ctx.fail('property', 'SampleSet.data', 'content', bad,
                      repro=PRE + hist_src + f'\nprint(list(ss.data(sorted_by={by!r}, reverse={rev}, index=True)))\nassert False, {bad!r}', detail=dict(source=hist_src))
     else:
-        by = r.choice(['energy', None])
-        n = r.choice([None, 0, 1, 2, 5])
+        by = r.choice(['energy', None, 'num_occurrences'] + (['ex'] if 'ex' in ref.fields else []))
+        n = r.choice([None, 0, 1, 2, 5, -1])
         ctx.tick('samples'); ctx.case(('samples', by, n, ss_text(ss)), nontrivial=bool(ref.rows))
         sa = ss.samples(n, sorted_by=by)
         got = [[F(float(row[v])) for v in ref.labels] for row in sa]
@@ -626,12 +639,13 @@ def observe(ctx, r, op, ss, ref, hist_src, lines, expect, meta):
             exp_sorted = sorted(tuple(row[0]) for row in sel.rows)
             pool = [tuple(row[0]) for row in ref.rows]
             keys_ok = len(got) == len(sel.rows) and all(tuple(g) in pool for g in got)
-            if keys_ok and len({row[1] for row in ref.rows}) == len(ref.rows):
+            if keys_ok and len({ref.key(by)(row) for row in ref.rows}) == len(ref.rows):
                 keys_ok = sorted(map(tuple, got)) == exp_sorted and [tuple(g) for g in got] == [tuple(row[0]) for row in sel.rows]
         else:
             keys_ok = got == [row[0] for row in sel.rows]
         if keys_ok and got == [row[0] for row in sel.rows]:     # (with ties NumPy may pick another valid order: the model is the stable one)
-            lines.append(f"samples 0 {'-' if n is None else n} {'none' if by is None else 'energy'}")
+            bym = {None: 'none', 'energy': 'energy', 'num_occurrences': 'occ'}.get(by) or 'x' + str(ref.fields.index(by))
+            lines.append(f"samples 0 {'-' if n is None else n} {bym}")
             expect.append('ok ' + ('|'.join(','.join(rat(x) for x in row) or '-' for row in got) or '-')); meta.append(('samples', [hist_src], None))
         if not keys_ok:
             bad = f'samples({n}, sorted_by={by!r}) gives {got!r}, the definition {[row[0] for row in sel.rows]!r}'
